@@ -53,6 +53,7 @@ struct string
   bool empty() const {return n_ == 0;}
   void clear() {n_ = 0; b_[0] = 0;}
   const char* c_str() const {return b_;}
+  const char* data() const {return b_;}
   iterator begin() {return b_;}
   iterator end() {return b_ + n_;}
   const_iterator begin() const {return b_;}
@@ -154,6 +155,41 @@ template<class T> struct vector
   void pop_back() { __CPROVER_assert(n_ > 0, "std::vector::pop_back() on an empty vector"); if (n_ > 0) n_ = n_ - 1; }
 };
 }
+// the pieces of <algorithm>/<string> a hand-written comparison is likely to reach for
+#ifndef VERIF_NATIVE
+namespace vstd_ns
+{
+template<class T> inline const T& min(const T& a, const T& b) {if (b < a) return b; return a;}
+template<class T> inline const T& max(const T& a, const T& b) {if (a < b) return b; return a;}
+// primary template only (the front end loses the members of an explicit specialisation); used for char
+template<class C> struct char_traits
+{
+  // [char.traits.specializations.char]: compares as unsigned char
+  static int compare(const C* a, const C* b, vstd_size_t n)
+  {
+    for (vstd_size_t i = 0; i < n; ++i)
+      {
+	if ((unsigned char) a[i] < (unsigned char) b[i]) return -1;
+	if ((unsigned char) a[i] > (unsigned char) b[i]) return 1;
+      }
+    return 0;
+  }
+  static vstd_size_t length(const C* s) {return vstd_cstrlen(s);}
+};
+}
+// CBMC's front end cannot call a static member function of a class template (lookup failure): units rewrite
+// std::char_traits<char>::compare( to this plain function (rule R-char-traits, like R-numeric-limits)
+inline int vstd_char_traits_compare(const char* a, const char* b, vstd_size_t n)
+{
+  for (vstd_size_t i = 0; i < n; ++i)
+    {
+      if ((unsigned char) a[i] < (unsigned char) b[i]) return -1;
+      if ((unsigned char) a[i] > (unsigned char) b[i]) return 1;
+    }
+  return 0;
+}
+namespace std { using vstd_ns::min; using vstd_ns::max; using vstd_ns::char_traits; }
+#endif
 namespace std { using vstd_ns::string; using vstd_ns::vector; typedef vstd_size_t size_t; }
 // <cctype> subset ("C" locale)
 inline int isspace(int c) {return c == ' ' || (c >= 9 && c <= 13);}
